@@ -109,9 +109,12 @@ func (d *Provider) Get(name string) (interface{}, error) {
 		d.callstack = append(d.callstack, name)
 		instance, err := factory(d)
 		if err != nil {
-			return nil, goaterr.Errorf("%v (dependency callstack: %v)", err, d.callstack)
+			err = goaterr.Errorf("%v (dependency callstack: %v)", err, d.callstack)
+			d.callstack = d.callstack[:len(d.callstack)-1]
+			return nil, err
 		}
 		if instance == nil {
+			d.callstack = d.callstack[:len(d.callstack)-1]
 			return nil, goaterr.Errorf("factory for %s return nil as instance", name)
 		}
 		d.callstack = d.callstack[:len(d.callstack)-1]
@@ -123,9 +126,12 @@ func (d *Provider) Get(name string) (interface{}, error) {
 		d.callstack = append(d.callstack, name)
 		instance, err := factory(d)
 		if err != nil {
-			return nil, goaterr.Errorf("%v (dependency callstack: %v)", err, d.callstack)
+			err = goaterr.Errorf("%v (dependency callstack: %v)", err, d.callstack)
+			d.callstack = d.callstack[:len(d.callstack)-1]
+			return nil, err
 		}
 		if instance == nil {
+			d.callstack = d.callstack[:len(d.callstack)-1]
 			return nil, goaterr.Errorf("default factory for %s return nil as instance", name)
 		}
 		d.callstack = d.callstack[:len(d.callstack)-1]
